@@ -16,6 +16,7 @@ INVARIANT LawDisjoint
 INVARIANT LawShift
 INVARIANT LawOriginFree
 INVARIANT BoxLaws
+INVARIANT RectLaws
 INVARIANT ExtentsInRange
 PROPERTY Terminates
 CHECK_DEADLOCK FALSE
